@@ -54,6 +54,7 @@ def correspondence(ctx):
             continue
         rng = ctx.rng("c17", name)
         bench = B.Bench(name, rng, size=16)
+        B.probe_unrankable(ctx, "C17", bench)
         stream = "walk:" + name
         if not bench.ok(11) or not bench.pool.hashable:
             ctx.stream(stream)["skipped"] = "pool too small or unhashable"
